@@ -20,7 +20,7 @@ SAMPLE_RATE = {"quick": 0.05, "thorough": 0.005}
 CHUNK = 48
 STUBS = ["asyncio.open_connection -> FakeNet", "StreamReader -> SegmentedReader (readexactly contract over symbolic cut offsets); concrete replay uses the real asyncio.StreamReader",
          "loop -> VLoop"]
-OUTSIDE = ["more cuts than the bound (quick 3; thorough up to 6)", "frame content is concrete (catalogue frames); symbolic content is C03/C05/C17"]
+OUTSIDE = ["more cuts than the bound (quick 3; thorough up to 6)", "pauses between segments longer than 400 s", "frame content is concrete (catalogue frames); symbolic content is C03/C05/C17"]
 ASSUMPTIONS = []
 
 
@@ -40,6 +40,10 @@ def instances(tier):
             out.append({"gen": g, "seq": [c, (c + 5) % 18]})
         out.append({"gen": g, "seq": [4, 17, 1]})
         out.append({"gen": g, "seq": [2, 5, 8]})
+        # long frames (payload > 128 and > 255 bytes: all 16 zones named / reported), alone and behind a short one; free gaps
+        out.append({"gen": g, "seq": ["long_names"], "gaps": True})
+        out.append({"gen": g, "seq": [4, "long_status"], "gaps": True})
+        out.append({"gen": g, "seq": [2, 5], "gaps": True})
         if tier == "thorough":
             for c in range(18):
                 for k in (1, 11):
@@ -61,7 +65,7 @@ def run(ctx, p):
     frames = []
     msgs = []
     for i, c in enumerate(p["seq"]):
-        e = cat[c]
+        e = _long_entry(g.n, c) if isinstance(c, str) else cat[c]
         # console -> client direction: to 0xB0, from 0x80/0x90
         from ref import framing
         data = e[3](i + 1)
@@ -96,15 +100,43 @@ def run(ctx, p):
                     r.feed_data(stream[prev:cuts[k]])
 
         rig.spawn(rig.sock.open_socket())
-        for k in range(k_cuts + 1):
-            rig.loop.vt_call_at(1.0 + k, (lambda k=k: deliver(k)))
-        rig.loop.vt_run(k_cuts + 3.5)
+        if p.get("gaps"):
+            # the pauses between segments are free too (up to 400 s each): reception does not depend on how long the rest takes
+            t = 1.0
+            for k in range(k_cuts + 1):
+                rig.loop.vt_call_at(t, (lambda k=k: deliver(k)))
+                t = t + ctx.real(f"gap{k}", 0, 400, lo_strict=True)
+            rig.loop.vt_run(t + 2.5)
+        else:
+            for k in range(k_cuts + 1):
+                rig.loop.vt_call_at(1.0 + k, (lambda k=k: deliver(k)))
+            rig.loop.vt_run(k_cuts + 3.5)
         got = [(h.packet_id, m) for _, h, m in rig.received]
         ctx.observe("delivered", len(got))
         exp = [(40 + i, m) for i, m in enumerate(msgs)]
         ok = len(got) == len(exp) and all(a[0] == b[0] and a[1] == b[1] for a, b in zip(got, exp))
         ctx.check(ok, "same_messages_once_in_order", detail={"delivered": len(got), "expected": len(exp)})
         ctx.check(len(rig.net.conns) == 1 and not rig.task_failures(), "same_messages_once_in_order", detail="connection was reset / task failure")
+
+
+def _long_entry(gen, which):
+    """Catalogue-shaped entry (name, maker, type, payload builder) for a frame with a long payload, built with the reference builders."""
+    from ref import at4 as r4
+    from ref import at5 as r5
+    from ref import framing as fr
+    if which == "long_names":
+        if gen == 4:
+            data = fr.ext(0xFF12, [x for n in range(16) for x in r4.build_group_name(n, f"Zone {n:02d}x")])          # 2 + 16*9 = 146 bytes
+        else:
+            data = fr.ext(0xFF13, [x for n in range(16) for x in r5.build_zone_name(n, f"Zone number {n:02d} name")])  # 2 + 16*21 = 338 bytes
+        return ("long_names", None, 0x1F, (lambda i, d=data: list(d)))
+    if gen == 4:
+        data = [x for n in range(16) for x in r4.build_group_status(n, 1, 1, 5 * (n % 20), 0, 1, 20 + n % 8, 1, 700 + n, 0)] \
+            + [x for n in range(8) for x in r4.build_group_status(n, 0, 0, 50, 0, 0, 22, 0, 0, 0)]                       # 24 records: 144 bytes
+        return ("long_status", None, 0x2B, (lambda i, d=data: list(d)))
+    recs = [x for n in range(16) for x in r5.build_zone_status(n, 1, 1, 5 * (n % 20), 100 + n, 1, 700 + n, 0, 0)]
+    data = fr.c0(0x21, [], 8, 16, recs)                                                                                 # 8 + 128 = 136 bytes
+    return ("long_status", None, 0xC0, (lambda i, d=data: list(d)))
 
 
 def _same(a, b):
